@@ -1,6 +1,7 @@
 package ons
 
 import (
+	"math"
 	"bytes"
 	"encoding/json"
 	"math/big"
@@ -236,7 +237,7 @@ func runCreate(ctx *action.Context, tx action.RawTx) (bool, action.Response) {
 	} else {
 
 		// calculate expiry from the buying price
-		extend, err := calculateExpiry(&create.BuyingPrice.Value, &opt.BaseDomainPrice, &opt.PerBlockFees)
+		extend, err := calculateExpiry(&create.BuyingPrice.Value, &opt.BaseDomainPrice, &opt.PerBlockFees, ctx.State.Version())
 		if err != nil {
 			return false, action.Response{
 				Log: codes.ErrFailedToCalculateExpiry.Wrap(err).Marshal(),
@@ -276,7 +277,18 @@ func runCreate(ctx *action.Context, tx action.RawTx) (bool, action.Response) {
 
 }
 
-func calculateExpiry(buyingPrice *balance.Amount, basePrice *balance.Amount, pricePerBlock *balance.Amount) (int64, error) {
+// blocksFor is the number of blocks an amount pays for at the price per block. It is refused when
+// that number, added to the height it extends from, does not fit an int64: Int64() of a larger
+// quotient wraps, and the name would expire in the past or last almost for ever
+func blocksFor(amount *big.Int, pricePerBlock *big.Int, from int64) (int64, error) {
+	blocks := big.NewInt(0).Div(amount, pricePerBlock)
+	if !blocks.IsInt64() || from < 0 || blocks.Int64() > math.MaxInt64-from {
+		return 0, errors.New("Buying price too high")
+	}
+	return blocks.Int64(), nil
+}
+
+func calculateExpiry(buyingPrice *balance.Amount, basePrice *balance.Amount, pricePerBlock *balance.Amount, from int64) (int64, error) {
 
 	if buyingPrice.BigInt().Cmp(basePrice.BigInt()) < 0 {
 		return 0, errors.New("Buying price too less")
@@ -284,16 +296,16 @@ func calculateExpiry(buyingPrice *balance.Amount, basePrice *balance.Amount, pri
 
 	remain := big.NewInt(0).Sub(buyingPrice.BigInt(), basePrice.BigInt())
 
-	return big.NewInt(0).Div(remain, pricePerBlock.BigInt()).Int64(), nil
+	return blocksFor(remain, pricePerBlock.BigInt(), from)
 }
 
-func calculateRenewal(buyingPrice *balance.Amount, pricePerBlock *balance.Amount) (int64, error) {
+func calculateRenewal(buyingPrice *balance.Amount, pricePerBlock *balance.Amount, from int64) (int64, error) {
 
 	if buyingPrice.BigInt().Cmp(pricePerBlock.BigInt()) < 0 {
 		return 0, errors.New("Buying price too less")
 	}
 
-	return big.NewInt(0).Div(buyingPrice.BigInt(), pricePerBlock.BigInt()).Int64(), nil
+	return blocksFor(buyingPrice.BigInt(), pricePerBlock.BigInt(), from)
 }
 
 func verifyDomainName(name ons.Name, feeOpt *ons.Options) bool {
